@@ -12,7 +12,7 @@ import numpy as np
 from tlz import concat, memoize, merge, pluck
 
 from dask import core
-from dask._task_spec import Alias, DataNode, Task, TaskRef
+from dask._task_spec import Alias, Task, TaskRef
 from dask.array.chunk import getitem
 from dask.base import is_dask_collection, tokenize
 from dask.highlevelgraph import HighLevelGraph
@@ -193,6 +193,19 @@ def slice_with_newaxes(out_name, in_name, blockdims, index):
         if n:
             where_none[i] -= n
 
+    if where_none and any(is_arraylike(ind) and ind.ndim > 0 for ind in index2):
+        # Fancy index: ``take`` emits aliases, split and merge tasks whose
+        # arguments cannot be rewritten one by one.  Index without the new axes
+        # first, then insert them into every output block.
+        tmp = "getitem-" + tokenize(out_name, index2)
+        dsk, blockdims2 = slice_wrap_lists(tmp, in_name, blockdims, index2, False)
+        expand = expander(where_none)
+        indexer = expand((slice(None, None, None),) * len(blockdims2), None)
+        for block in product(*(range(len(bd)) for bd in blockdims2)):
+            k2 = (out_name,) + expand(block, 0)
+            dsk[k2] = Task(k2, getitem, TaskRef((tmp,) + block), indexer)
+        return dsk, expand(blockdims2, (1,))
+
     # Pass down and do work
     dsk, blockdims2 = slice_wrap_lists(
         out_name, in_name, blockdims, index2, not where_none
@@ -207,15 +220,7 @@ def slice_with_newaxes(out_name, in_name, blockdims, index):
         for k, v in dsk.items():
             if k[0] == out_name:
                 k2 = (out_name,) + expand(k[1:], 0)
-                if isinstance(v.args[1], TaskRef):
-                    # positional indexing with newaxis
-                    indexer = expand_orig(dsk[v.args[1].key].value[1], None)
-                    tok = "shuffle-taker-" + tokenize(indexer)
-                    dsk2[tok] = DataNode(tok, (1, indexer))
-                    arg = TaskRef(tok)
-                else:
-                    arg = expand_orig(v.args[1], None)
-                # raise NotImplementedError
+                arg = expand_orig(v.args[1], None)
                 dsk2[k2] = Task(k2, v.func, v.args[0], arg)
             else:
                 dsk2[k] = v
